@@ -166,7 +166,7 @@ impl Read for Srw {
 }
 impl Srw {
     /// a genuinely scattering `read_vectored` (what a socket does): one scripted read over the concatenation of the
-    /// destinations, logged as `RV`.  The adapters' default `read_vectored` never reaches it (it calls `read`); an
+    /// destinations.  The adapters' default `read_vectored` never reaches it (it calls `read`); an
     /// override that forwards the slice list does.
     fn scatter(&mut self, bufs: &mut [std::io::IoSliceMut<'_>]) -> std::io::Result<usize> {
         let total: usize = bufs.iter().map(|b| b.len()).sum();
@@ -174,16 +174,7 @@ impl Srw {
         for b in bufs.iter() {
             tmp.extend_from_slice(b);
         }
-        let before = self.log.borrow().len();
         let r = self.read(&mut tmp);
-        {
-            let mut lg = self.log.borrow_mut();
-            if lg.len() > before {
-                let last = lg.len() - 1;
-                let e = lg[last].replacen('R', "RV", 1);
-                lg[last] = e;
-            }
-        }
         let mut off = 0;
         for b in bufs.iter_mut() {
             let l = b.len();
@@ -201,18 +192,9 @@ impl Write for Srw {
                 None => self.write(&[]),
             };
         }
-        let mut all: Vec<u8> = vec![];
-        for b in bufs {
-            all.extend_from_slice(b);
-        }
-        let before = self.log.borrow().len();
+        let all: Vec<u8> = uncounted(|| bufs.iter().flat_map(|b| b.iter().copied()).collect());
         let r = self.write(&all);
-        let mut lg = self.log.borrow_mut();
-        if lg.len() > before {
-            let last = lg.len() - 1;
-            let e = lg[last].replacen('W', "WV", 1);
-            lg[last] = e;
-        }
+        uncounted(|| drop(all));
         r
     }
     fn write(&mut self, buf: &[u8]) -> std::io::Result<usize> {
@@ -454,7 +436,20 @@ pub fn chain_line(s1: &Srw, s2: &Srw, ops: &[AdOp], w: &mut impl std::io::Write)
         let mut chain = sa.chain(sb);
         drive_reads(&mut chain, ops)
     };
-    writeln!(w, "CH {} {} {} | {} ; {} ; {} | {} ; {}", s1.describe(), s2.describe(), ops_str(ops), impl_res, logstr(&log), allocs, std_res, logstr(&slog)).unwrap();
+    // second reference: std's adapter over twins that really scatter / gather (what a forwarding implementation meets)
+    let slog2 = Log::default();
+    let (mut ta, mut tb) = (s1.twin(&slog2), s2.twin(&slog2));
+    ta.vectored = true;
+    tb.vectored = true;
+    let std2_res = {
+        let mut chain = ta.chain(tb);
+        drive_reads(&mut chain, ops)
+    };
+    let rl = |l: &Log| -> String {
+        let v: Vec<String> = l.borrow().iter().filter(|e| e.starts_with('R')).cloned().collect();
+        if v.is_empty() { "-".into() } else { v.join(",") }
+    };
+    writeln!(w, "CH {} {} {} | {} ; {} ; {} | {} ; {} | {} ; {}", s1.describe(), s2.describe(), ops_str(ops), impl_res, logstr(&log), allocs, std_res, logstr(&slog), std2_res, rl(&slog2)).unwrap();
 }
 
 pub fn chainbuf_line<const N: usize>(content: &[u8], ri: usize, s2: &Srw, ops: &[AdOp], w: &mut impl std::io::Write) -> bool {
@@ -507,7 +502,18 @@ pub fn take_line(s: &Srw, limit: u64, ops: &[AdOp], w: &mut impl std::io::Write)
         let mut take = sa.take(limit);
         drive_reads(&mut take, ops)
     };
-    writeln!(w, "TK {} {} {} | {} ; {} ; {} | {} ; {}", s.describe(), limit, ops_str(ops), impl_res, logstr(&log), allocs, std_res, logstr(&slog)).unwrap();
+    let slog2 = Log::default();
+    let mut ta = s.twin(&slog2);
+    ta.vectored = true;
+    let std2_res = {
+        let mut take = ta.take(limit);
+        drive_reads(&mut take, ops)
+    };
+    let rl = |l: &Log| -> String {
+        let v: Vec<String> = l.borrow().iter().filter(|e| e.starts_with('R')).cloned().collect();
+        if v.is_empty() { "-".into() } else { v.join(",") }
+    };
+    writeln!(w, "TK {} {} {} | {} ; {} ; {} | {} ; {} | {} ; {}", s.describe(), limit, ops_str(ops), impl_res, logstr(&log), allocs, std_res, logstr(&slog), std2_res, rl(&slog2)).unwrap();
 }
 
 fn seqs<T: Clone>(alpha: &[T], maxlen: usize) -> Vec<Vec<T>> {
